@@ -54,6 +54,7 @@ pub fn unhex(s: &str) -> Option<Vec<u8>> {
 }
 
 /// The RNG handed to the framework: a PRNG stream with scripted extreme words mixed in.
+#[derive(Clone)]
 pub struct ScriptRng {
     pub prng: Prng,
     /// out of 64: chance that a word is replaced by an extreme one
